@@ -126,7 +126,9 @@ def c09_2(ctx, r):
     for st in _state_stores(ctx, fn, lp.body, "DONE"):
         for n in ctx.nodes_of(fn, st):
             forms = guard_forms(ctx, fn, n, ALL_KINDS, kill=False)
-            ok = any((not p) and f.endswith("in processed") for f, p in forms)
+            procs = {c.func.value.id for l2 in list(_loop_over(fn, "submitted_jobs")) + list(_loop_over(fn, "blocked_jobs")) for c in ast.walk(l2)
+                     if isinstance(c, ast.Call) and isinstance(c.func, ast.Attribute) and c.func.attr == "add" and isinstance(c.func.value, ast.Name)}
+            ok = any((not p) and any(f.endswith(f"in {x}") for x in procs) for f, p in forms)
             r.check(ok, "a name is not both (re)submitted/blocked and completed in one update (assert)", key_of(fn, "assert not processed"), fn.loc(st),
                     "the 'completed name not processed in this update' assertion is gone")
     # blocked loop asserts NOT_SUBMITTED
